@@ -774,7 +774,8 @@ def run(ctx):
                                   "out": [ord(c) for c in out]})
                     prev = d["toks"][j - 1]["s"] if j > 0 else ""
                     role = d["toks"][j]["r"]
-                    isdesc = role == "desc" or (role == "sdl" and prev not in (":", "=", "[") and not prev.startswith('"'))
+                    in_list = sum((t["s"] == "[") - (t["s"] == "]") for t in d["toks"][:j]) > 0
+                    isdesc = role == "desc" or (role == "sdl" and prev not in (":", "=", "[") and not in_list)
                     line_of[len(trace)] = (i, {"mode": mode, "tok": j, "src": sp, "out": ob.decode("utf-8", "replace"), "desc": isdesc})
                     stats["lit_obs"] += 1
         for lr in o["lims"]:
